@@ -298,7 +298,9 @@ pub fn arb_block() -> impl Strategy<Value = GBlock> {
         bytes_n(32),
         bytes_n(64),
         proptest::collection::vec(arb_u64(), 25..=25),
-        proptest::collection::vec(arb_small_tx(), 0..9),
+        // mostly small transactions, now and then one of full generality (up to 255 slips on each
+        // side, large payload) embedded in the block
+        proptest::collection::vec(prop_oneof![7 => arb_small_tx().boxed(), 1 => arb_tx().boxed()], 0..9),
     )
         .prop_map(|(id, timestamp, prev, creator, merkle, sig, nums, txs)| GBlock {
             id,
